@@ -64,6 +64,16 @@ CHECKS = {
   text="Generated-input search over projects aimed at closure (prefix parameters, pointer path parameters, duplicate wire names, types reachable through maps/slices/pointers, varied and undeclared security schemes). Every document gleece emits (both versions in-process, the configured one through the real CLI) is checked by internal/oas (plain encoding/json): $ref resolution, template/path-parameter bijection, unique (name,in), response descriptions, enum member types, unique operationIds, and info/servers/securitySchemes against the configuration; a failing `generate spec` must leave no file. Sampling.",
   note="Trusts: rapid; the validity predicate in internal/oas/oas.go (it is the statement's list, not a full OpenAPI validator); in-process bytes are cross-checked against the CLI's file on every accepted case.",
   ref="6/C08"),
+ "C10": dict(
+  technique="property-based testing with rapid: well-formed routes + 0-2 catalogue perturbations; independent WellLinked predicate vs gleece's accept/reject; real CLI for output blocking",
+  text="Generated-input search in the linkage lab: routes are modelled as template names, annotations (kind, reference, alias), Go parameters with types, result lists and verb; 0, 1 or 2 perturbations from a catalogue of 21 are applied; an independent predicate implementing the six link rules of the statement decides whether every route is well-linked; gleece's decision (no error diagnostic and Run() succeeds) must coincide, both directions counted separately; after each rejection the real CLI must exit non-zero and leave neither routes nor spec. Sampling over routes and perturbation pairs.",
+  note="Trusts: rapid; the WellLinked predicate in props/static/linkage_test.go (the statement's rules plus the one recorded narrowing: a bare primitive body is ill-formed); known findings matched by rule + culprit perturbation.",
+  ref="6/C10"),
+ "C18": dict(
+  technique="property-based testing with rapid: the C10 perturbation generator with layout noise; the renderer's recorded line spans and annotation values are the oracle for every diagnostic's file, range, covered text, code and uniqueness",
+  text="Generated-input search over rejected/warned projects: perturbed routes are rendered with free text and multibyte characters before the annotations, several controllers per file, several files, type groups; the renderer records where every comment block and declaration is. Every diagnostic from Validate() must name the entity's file, have start<=end, lie inside the file and inside the entity's comment or declaration, cover text equal to an annotation value for value-anchored codes, carry the code/severity expected for the single perturbation applied, and be unique; the CLI's error text must not list a diagnostic twice. Sampling.",
+  note="Trusts: rapid; the renderer's span bookkeeping; the expected-code table transcribed from the validators; columns accepted in runes or bytes.",
+  ref="6/C18"),
 }
 
 NOT_APPLICABLE = []
